@@ -1,16 +1,25 @@
 """C09 - the 2D cross-section interface equals the 3D interface along the section."""
 from C01 import TUS as T1
 TUS = ['c09.cc'] + T1[1:]
-ST = ['the 3D overload of World::properties is a recording stub returning uninterpreted values', 'sqrt/atan2/sin/cos uninterpreted with contract axioms', 'cross section origin and unit direction are symbolic members (computed by World::parse_entries from JSON: outside)']
+ST = ['the 3D overload of World::properties is a recording stub returning uninterpreted values', 'sqrt/atan2/sin/cos uninterpreted with contract axioms', 'C09.map: cross section origin and direction are arbitrary symbolic members; C09.dir proves what parse_entries stores there']
 def ob(id, entry, mode, cases, expect, bounds, **kw):
     d = dict(id=id, harness='c09.cc', entry=entry, mode=mode, cases=cases, expect=expect, bounds=bounds, tus=TUS, stubs=ST, native=False,
-             assumes=['real mode: finite inputs, exact arithmetic (rounding outside the claim)', 'kinds 1..5, n<4, k<=2'], outside=['computation of the section direction vector in parse_entries'])
+             assumes=['real mode: finite inputs, exact arithmetic (rounding outside the claim)', 'kinds 1..5, n<4, k<=2'], outside=[])
     d.update(kw); return d
+
+WP_TUS = ['world_parse.cc'] + T1[1:]
+WP_ST = ['Parameters API stub: constructor, declare_entries and initialize (JSON reading) are empty; every entry is an arbitrary value of its schema type; no features',
+         'the world file itself and schema validation are outside']
 OBLIGATIONS = [
     ob('C09.map', 'h_c09_map', 'real', [(0, 1, 0), (0, 2, 0), (1, 1, 0), (1, 2, 0)] + [(0, 3, k) for k in range(1, 6)],
        ['one 3D query on the same world', 'depth forwarded unchanged', 'property triples forwarded in order', 'Cartesian: distance x along the section at height z',
         'spherical: angle atan2(z,x) along the section at radius sqrt(x^2+z^2)', 'velocity: in-section horizontal component', 'velocity: vertical component', 'velocity: third entry is zero',
         'non-velocity entries are the 3D answer unchanged', '2D answer has no extra entries', 'end'],
        'request lists L<=3 (spherical: L<=2 in the quick tier), grains count <=2, Cartesian and spherical', cases_thorough=[(0, 1, 0), (0, 2, 0), (1, 1, 0), (1, 2, 0)] + [(c, 3, k) for c in (0, 1) for k in range(1, 6)]),
-    ob('C09.refuse', 'h_c09_refuse', 'fp', [()], ['2D query without cross section throws and never reaches the 3D query', 'end'], 'all points'),
+    dict(id='C09.dir', harness='world_parse.cc', entry='h_world_parse', mode='real', cases=[(0, 2), (1, 2), (0, 1), (0, 3)], expect=['the world is 2D exactly when a cross section is declared',
+         'the stored cross section is the declared one (degrees converted to radians in spherical worlds)', 'the section direction is a unit vector', 'the section direction points from the first cross-section point towards the second',
+         'a cross section that does not have two points is rejected with an exception', 'direction', 'end', 'end-rejected'],
+         bounds='the real World constructor and World::parse_entries; Cartesian and spherical; cross sections of 1..3 points; all coordinates', tus=WP_TUS, stubs=WP_ST + ['sqrt uninterpreted with r>=0, r^2=x'], native=False, allow_throw=True,
+         assumes=['exact-real reading; the two points differ'], outside=['rounding of the normalisation'], time_cap=600),
+    ob('C09.refuse', 'h_c09_refuse', 'fp', [(0,), (1,), (2,), (3,), (4,)], ['2D query without cross section throws and never reaches the 3D query', 'end'], 'all points, depths and world constants (incl. forced surface temperature); the five 2D entry points properties / temperature (2 overloads) / composition / grains'),
 ]
